@@ -90,6 +90,16 @@ def modelObs (st : State) (ws : List String) : Option (State × String) :=
         let mt := if os.any (fun o => match o with | .maxTries _ => true | _ => false) then 1 else 0
         some (st', s!"j={idx} {modelV os} mt={mt} sc={scoreOf st'.rank (nat! p)}")
       | _ => some (st', "IGNORED")
+  | ["late", p, idx, e] =>
+    match parseErr e with
+    | none => none
+    | some err =>
+      let (st', os) := step2 st (.late (nat! p) (nat! idx) err)
+      match os with
+      | .resultFor i :: _ =>
+        let mt := if os.any (fun o => match o with | .maxTries _ => true | _ => false) then 1 else 0
+        some (st', s!"j={i} {modelV os} mt={mt} sc={scoreOf st'.rank (nat! p)}")
+      | _ => some (st', "IGNORED")
   | ["wake", b, g] =>
     let (st', os) := step st (.wake (nat! b) (nat! g))
     some (st', if os.contains .ignored then "IGNORED" else modelV os)
@@ -129,6 +139,11 @@ def obsOf1 (ws : List String) (obs : String) : List Obs :=
       (match field ows "sc" with
        | some sc => [Obs.scoreAfter (nat! p) (nat! sc)]
        | none => [])
+  | ["late", p, idx, e] =>
+    .lateResult (nat! p) (nat! idx) ((parseErr e).getD .other) :: vs ++ [.resultDone] ++
+      (match field ows "sc" with
+       | some sc => [Obs.scoreAfter (nat! p) (nat! sc)]
+       | none => [])
   | ["exit", p] => [.exited (nat! p)]
   | "notrecv" :: ps => [.notReceiving (ps.map (fun x => nat! x))]
   | ["order"] => [.order (parseOrder obs)]
@@ -145,7 +160,7 @@ with the dispatcher at rest and every offered job taken: the quiescence clause i
 such a line: the driver may stop the work manager while a job is on offer.) -/
 def obsOf (ws : List String) (obs : String) : List Obs :=
   match ws with
-  | "batch" :: _ | "peer" :: _ | "result" :: _ | "wake" :: _ | "elapse" :: _ =>
+  | "batch" :: _ | "peer" :: _ | "result" :: _ | "late" :: _ | "wake" :: _ | "elapse" :: _ =>
     (match ws with
      | ["peer", p] => Obs.quiescent :: Obs.connected (nat! p) :: obsOf1 ws obs
      | _ => Obs.quiescent :: obsOf1 ws obs)
